@@ -62,6 +62,28 @@ pub fn ok_hash_lookup(m: &HashMap<u32, u32>) -> Option<u32> {
     m.get(&1).copied()
 }
 
+pub fn bad_loop_carried(m: &HashMap<u32, u32>) -> Option<u32> {
+    let mut last = None;
+    for (k, v) in m {
+        if *v > 1 {
+            last = Some(*k);
+        }
+    }
+    last
+}
+
+pub fn ok_loop_collected(m: &HashMap<u32, u32>) -> usize {
+    let mut all = Vec::new();
+    let mut found = false;
+    for (k, v) in m {
+        if *v > 1 {
+            all.push(*k);
+            found = true;
+        }
+    }
+    all.len() + found as usize
+}
+
 // panic census (C01) ---------------------------------------------------------------------------------
 pub fn bad_unwrap(v: Option<u32>) -> u32 {
     v.unwrap()
@@ -121,6 +143,7 @@ pub fn entry(k: &mut Keeper, m: &HashMap<u32, u32>, v: &[u32], b: &[u8]) -> u64 
     acc += bad_clock();
     acc += bad_env() as u64;
     acc += bad_hash_order(m).unwrap_or(0) as u64 + ok_hash_lookup(m).unwrap_or(0) as u64;
+    acc += bad_loop_carried(m).unwrap_or(0) as u64 + ok_loop_collected(m) as u64;
     acc += bad_unwrap(v.first().copied()) as u64 + bad_index(v, 3) as u64 + bad_add_u32(1, 2) as u64;
     acc += bad_sub_unguarded(3, 1) as u64 + ok_sub_guarded(3, 1) as u64 + ok_checked(1, 2).unwrap_or(0) as u64;
     acc += bad_alloc_wire(3).capacity() as u64 + ok_alloc_len(b).capacity() as u64;
